@@ -280,7 +280,8 @@ def write_replay(mod, case, violations, seed, tier):
 
 
 def write_evidence(mod, tier, seed, coll, wall_s, nviol, exhaustive_text, extra=None):
-    os.makedirs(os.path.join(VERIF_DIR, 'evidence'), exist_ok=True)
+    evdir = os.environ.get('VERIF_EVIDENCE_DIR') or os.path.join(VERIF_DIR, 'evidence')
+    os.makedirs(evdir, exist_ok=True)
     total = max(1, coll.evaluations)
     hist = {k: f"{v} ({100.0 * v / total:.1f}%)" for k, v in sorted(coll.classes.items())}
     coverage = {
@@ -306,7 +307,7 @@ def write_evidence(mod, tier, seed, coll, wall_s, nviol, exhaustive_text, extra=
         ],
         'wall_s': round(wall_s, 3), 'violations': nviol,
     }
-    path = os.path.join(VERIF_DIR, 'evidence', f'{mod.ID}.json')
+    path = os.path.join(evdir, f'{mod.ID}.json')
     tmp = path + '.tmp'
     with open(tmp, 'w') as f:
         json.dump(ev, f, indent=1, default=repr)
